@@ -105,6 +105,16 @@ Theorem C16_isolation_partial : forall c h s, (forall d o, In (d, o) h -> under 
 Proof. exact fs_isolation. Qed.
 Print Assumptions C16_isolation_partial.
 
+(** Lifecycle of fidRefs reached through the path tree (the "TryIncRef during rename callbacks" mechanism): a fidRef
+    found by ranging over a path node's childRefs may be dying (count 0, Close running, not yet unregistered), so
+    every acquisition of such a reference is a TryIncRef; unconditional IncRef is used only by reference holders.
+    The table shows both notification paths (removeWithName, notifyNameChange) and the ordinary IncRefs. *)
+Theorem C16_weak_refs_ok : forall st, In st sites -> ref_ok st = true.
+Proof. exact refs_ok. Qed.
+Print Assumptions C16_weak_refs_ok.
+Example C16_weak_refs_nonvacuous : weak_refs_seen = true.
+Proof. exact weak_refs_nonvacuous. Qed.
+
 Example C16_table_nonvacuous :
   existsb (fun st => match s_kind st with KAcq (SChild _) _ => hasW (s_held st) SRename | _ => false end) sites = true.
 Proof. vm_compute. reflexivity. Qed.
